@@ -47,11 +47,15 @@ example : backwardSpans 4 = [(0, 4, 0), (1, 4, 0), (2, 4, 0), (3, 4, 0)] := by d
 /-- internal ions are cut exactly at the strictly internal spans `0 < s < e < n`, each once -/
 theorem internalSpans_strict (n : Int) :
     (∀ s e v : Int, (s, e, v) ∈ internalSpans n ↔ 0 < s ∧ s < e ∧ e < n ∧ v = 0) ∧ (internalSpans n).Nodup := by
-  refine ⟨mem_internalSpans n, ?_⟩
-  have h := nodup_internalProj n
-  exact (List.pairwise_map.1 h).imp (fun hne heq => hne (by rw [heq]))
+  exact ⟨mem_internalSpans n, nodup_internalSpans n⟩
 
 example : internalSpans 4 = [(1, 2, 0), (1, 3, 0), (2, 3, 0)] := by decide
+
+/-- there are `(n-1)(n-2)/2` of them (natural-number subtraction: none for `n ≤ 2`) -/
+theorem internalSpans_count (n : Nat) : 2 * (internalSpans (n : Int)).length = (n - 1) * (n - 2) :=
+  Fragment.internalSpans_count n
+
+example : (internalSpans 12).length = 55 := by decide
 
 /-- immonium ions are cut at the `n` single residues, each once -/
 theorem immoniumSpans_residues (n : Nat) :
